@@ -35,6 +35,8 @@ structure SpecWorld where
   tainted : Bool := false
   /-- corruption consent of the current session -/
   cb : Option Bool := none
+  /-- `some k`: the second marker line of section `k` (0-based) was overwritten (C18) -/
+  damaged : Option Nat := none
   snaps : List (Nat × Bool × Nat × Bytes × List Entry × Bool) := []
 deriving Inhabited
 
@@ -69,11 +71,32 @@ def slackLines (p : Nat) (s e : Bound) (log : List Entry) : Nat :=
   | _, _ => 0
 
 def step (w : SpecWorld) (op : Op) : SpecWorld × String :=
+  if w.damaged.isSome && !w.tainted then
+    -- C18: one damaged section; only full reads have an expectation
+    match op, w.damaged with
+    | .readAll .unb .unb, some k =>
+      if !w.isOpen then (w, "~none") else
+      if w.cb == some true then
+        -- everything from the next intact section on must be there, nothing fabricated
+        let secs := sections w.p w.log
+        let from_ := match secs[k + 1]? with
+          | some sc => (w.log.takeWhile (fun (e : Entry) => decide (e.ts < sc.1))).length
+          | none => w.log.length
+        (w, s!"~sub from={from_} " ++ fmtEntries w.log)
+      else (w, "~err CorruptMetaSection")
+    | .close, _ => ({ w with isOpen := false }, "~none")
+    | .open _ _ caches cb _, _ => ({ w with isOpen := true, caches := caches, cb := cb }, "~none")
+    | .restore k, _ =>
+      match w.snaps.find? (·.1 == k) with
+      | some (_, c, p, h, l, t) => ({ w with created := c, p := p, hdr := h, log := l, tainted := t, damaged := none, isOpen := false }, "~none")
+      | none => (w, "~none")
+    | _, _ => (w, "~none")
+  else
   if w.tainted then
     match op with
     | .restore k =>
       match w.snaps.find? (·.1 == k) with
-      | some (_, c, p, h, l, t) => ({ w with created := c, p := p, hdr := h, log := l, tainted := t, isOpen := false }, "~none")
+      | some (_, c, p, h, l, t) => ({ w with created := c, p := p, hdr := h, log := l, tainted := t, damaged := none, isOpen := false }, "~none")
       | none => (w, "~none")
     | .close => ({ w with isOpen := false }, "~none")
     | .open .. => ({ w with isOpen := true }, "~none")
@@ -129,7 +152,11 @@ def step (w : SpecWorld) (op : Op) : SpecWorld × String :=
     if !w.isOpen then (w, "~none") else
     let sel := filterBounds (toBound s) (toBound e) w.log
     if n = 0 then (w, "~empty")
-    else (w, s!"~readn n={n} caches={w.caches.length} " ++ fmtEntries sel)
+    else if w.caches.isEmpty then (w, s!"~readn n={n} caches=0 " ++ fmtEntries sel)
+    else
+      let bs (b : Impl.Bound) : String := match b with
+        | .incl t => s!"I:{t}" | .excl t => s!"E:{t}" | .unb => "U"
+      (w, s!"~readnc n={n} s={bs s} e={bs e} p={w.p} caches={",".intercalate (w.caches.map toString)} " ++ fmtEntries w.log)
   | .nLines s e =>
     if !w.isOpen then (w, "~none") else
     let sel := filterBounds (toBound s) (toBound e) w.log
@@ -175,10 +202,19 @@ def step (w : SpecWorld) (op : Op) : SpecWorld × String :=
     | .data => ({ w with tainted := true }, "~none")
     | .cdata _ => ({ w with tainted := true }, "~none")
     | _ => (w, "~none")
-  | .damage r _ _ =>
+  | .damage r off b =>
     match r with
     | .index => (w, "~none")
     | .part => (w, "~none")
+    | .data =>
+      -- the one damage C18 speaks about: the marker bytes of the SECOND marker line of a section
+      let secs := sections w.p w.log
+      let hit := secs.findIdx? fun sc => hdrLen w + sc.2 + lineSize w.p == off
+      match hit with
+      | some k =>
+        if b.length = 2 && !(isMarker b) && k < secs.length then ({ w with damaged := some k }, "~none")
+        else ({ w with tainted := true }, "~none")
+      | none => ({ w with tainted := true }, "~none")
     | _ => ({ w with tainted := true }, "~none")
   | .get _ => (w, "~none")
   | .save k =>
